@@ -972,6 +972,7 @@ def rule_16_14(rep, fx):
                        '(contains_key / entry) has no such path')
     MAPS = ('common_encode_key_materials', 'receiver_specific_encode_key_materials', 'decode_key_materials')
     n = 0
+    n_fn = 0
     for b in fx.bodies:
         if not b.key.startswith(CB) or b.kind not in ('fn', 'assoc_fn'):
             continue
@@ -986,6 +987,7 @@ def rule_16_14(rep, fx):
                     ins.append((bb, t, which[0]))
         if not ins:
             continue
+        n_fn += 1
         P = Pos(b)
         errs = [(sb, si) for sb, si, st in b.statements() if st['s'] == 'assign' and st['lhs']['l'] == 0 and not st['lhs'].get('p') and st['rv']['r'] == 'agg' and st['rv'].get('variant') == 'Err']
         for bb, t, which in ins:
@@ -1010,4 +1012,5 @@ def rule_16_14(rep, fx):
                       '%s answers Err after it has already replaced the key material stored for the handle in %s, without putting the old one back: a refused (repeated or foreign) '
                       'registration changes which traffic decodes - what was produced under the refused key material is accepted, the registered sender is locked out' %
                       (b.key[len(CB):], which), b.where(bb))
-    rep.floor('R16.14', n, 3, 'insert-then-maybe-refuse sites over the key-material maps')
+    # (a method that tests before it inserts has no insert-then-refuse path and no instance; what must not disappear are the methods that fill the maps)
+    rep.floor('R16.14', n_fn, 3, 'CryptographicBuiltin methods that insert into the key-material maps')
